@@ -2,9 +2,9 @@ package sim
 
 import (
 	"fmt"
-	"strings"
 	"math/big"
 	"sort"
+	"strings"
 
 	sdk "github.com/cosmos/cosmos-sdk/types"
 
@@ -475,17 +475,7 @@ func (p *ProdGen) Run(n int, adminEvery int) {
 			if r.Intn(3) == 0 {
 				// a message sent to the local domain is received here, then replaced by its sender, and both versions are
 				// presented again: the pair (4, nonce) stays consumed
-				from := Acct(r.Intn(NAccounts))
-				rep := e.Exec(Tx{Msgs: msgs1(&ct.MsgSendMessage{From: from, DestinationDomain: 4, Recipient: Structured32(byte(1 + r.Intn(200))), MessageBody: []byte("loop-back")}), Note: "loop-back: send to the local domain"})
-				if rep.OK && len(rep.Sent) == 1 {
-					orig := rep.Sent[0]
-					e.Exec(Tx{Msgs: msgs1(&ct.MsgReceiveMessage{From: Acct(UserIx), Message: orig, Attestation: e.Attest(orig, 0)}), Note: "loop-back: receive"})
-					r2 := e.Exec(Tx{Msgs: msgs1(&ct.MsgReplaceMessage{From: from, OriginalMessage: orig, OriginalAttestation: e.Attest(orig, 1), NewMessageBody: []byte("loop-back replaced"), NewDestinationCaller: make([]byte, 32)}), Note: "loop-back: replace after the receive"})
-					if r2.OK && len(r2.Sent) == 1 {
-						e.Exec(Tx{Msgs: msgs1(&ct.MsgReceiveMessage{From: Acct(OtherIx), Message: r2.Sent[0], Attestation: e.Attest(r2.Sent[0], 0)}), Note: "loop-back: receive the replacement"})
-					}
-					e.Exec(Tx{Msgs: msgs1(&ct.MsgReceiveMessage{From: Acct(UserIx), Message: orig, Attestation: e.Attest(orig, 2)}), Note: "loop-back: receive the original again"})
-				}
+				loopBackCycle(e, Acct(r.Intn(NAccounts)), byte(1+r.Intn(200)))
 			}
 			if r.Intn(3) == 0 { // rotate a destination's token messenger (remove, register another address)
 				d := p.dstWithMessenger()
@@ -519,4 +509,21 @@ func sortedNonces(m map[uint64]*Emitted) []uint64 {
 	}
 	sort.Slice(out, func(i, j int) bool { return out[i] < out[j] })
 	return out
+}
+
+// loopBackCycle: a message sent to the local domain is received here, then replaced by its sender, and both versions
+// are presented again: the pair (4, nonce) stays consumed whatever happens to the message afterwards.
+func loopBackCycle(e *Engine, from string, tag byte) {
+	rep := e.Exec(Tx{Msgs: msgs1(&ct.MsgSendMessage{From: from, DestinationDomain: 4, Recipient: Structured32(tag), MessageBody: []byte("loop-back")}), Note: "loop-back: send to the local domain"})
+	if !rep.OK || len(rep.Sent) != 1 {
+		return
+	}
+	e.Rc.Cov.Cell("env_actions", "loop-back-cycle")
+	orig := rep.Sent[0]
+	e.Exec(Tx{Msgs: msgs1(&ct.MsgReceiveMessage{From: Acct(UserIx), Message: orig, Attestation: e.Attest(orig, 0)}), Note: "loop-back: receive"})
+	r2 := e.Exec(Tx{Msgs: msgs1(&ct.MsgReplaceMessage{From: from, OriginalMessage: orig, OriginalAttestation: e.Attest(orig, 1), NewMessageBody: []byte("loop-back replaced"), NewDestinationCaller: make([]byte, 32)}), Note: "loop-back: replace after the receive"})
+	if r2.OK && len(r2.Sent) == 1 {
+		e.Exec(Tx{Msgs: msgs1(&ct.MsgReceiveMessage{From: Acct(OtherIx), Message: r2.Sent[0], Attestation: e.Attest(r2.Sent[0], 0)}), Note: "loop-back: receive the replacement"})
+	}
+	e.Exec(Tx{Msgs: msgs1(&ct.MsgReceiveMessage{From: Acct(UserIx), Message: orig, Attestation: e.Attest(orig, 2)}), Note: "loop-back: receive the original again"})
 }
